@@ -344,6 +344,13 @@ def r3d_memo_context(ctx):
                 res = c.get("res") or ""
                 if c["args"] and _derives(f, c["args"][0], i) and re.search(r"::(contains|get|len|is_empty|iter)$", res):
                     bad.append((f.local_name(i), res.split("::")[-1]))
+        rooted = bad and all(_store_only_at_root(db, f, m, i) for i in muts)
+        if rooted:
+            # the result is stored only when the context was empty on entry: every stored value was computed from the
+            # canonical (empty) context, whatever nested calls consult
+            r.ok(sample={"cache": m, "fill": fid, "idiom": "store only when the context parameter is empty on entry"})
+            r.counts["root_only_stores"] = r.counts.get("root_only_stores", 0) + 1
+            continue
         if bad:
             r.violate(key, "%s memoises its result in `%s` but the result depends on context parameter(s) %s" % (fid, m, sorted(set(bad))))
         else:
@@ -366,6 +373,27 @@ def r3d_memo_context(ctx):
                         r.ok()
     r.floor("cache fill functions", len(fills), 5)
     return r
+
+
+def _store_only_at_root(db, f, m, param):
+    """every insert into cache m inside f lies behind the true edge of `<param>.is_empty()` evaluated before any other use
+    of the context parameter (so: on entry)"""
+    dom = f.dominators()
+    uses = [(bb, c) for bb, c in f.calls() if any(_derives(f, a, param) for a in c["args"])]
+    tests = [(bb, c) for bb, c in uses if re.search(r"::is_empty$", c.get("res") or "") and c.get("dest") is not None]
+    ins = [op for op in db.ops_by_map.get(m, []) if op.method == "insert" and op.fn.id == f.id]
+    if not tests or not ins:
+        return False
+    for tb, tc in tests:
+        if not all(ub == tb and uc is tc or (tb in dom[ub] and ub != tb) for ub, uc in uses):
+            continue
+        sw = _switch_of(f, place_local(tc["dest"]))
+        if not sw or sw[1] == sw[2]:
+            continue
+        t_true = sw[1]
+        if all(t_true in dom[op.bb] for op in ins):
+            return True
+    return False
 
 
 def _derives(f, op, param, depth=0):
